@@ -6,6 +6,17 @@ ALL = ["C%02d" % i for i in range(1, 21)]
 
 # id -> (technique, level text, level_note, design_ref)
 CLAIMS = {
+ "C09": ("Lean 4 invariant proofs over operation sequences on a model of the scope stack and variable attributes + API-level and program-level correspondence",
+         "Proof: Model/Env.lean mirrors ShellEnvironment (scope stack, lookup policies, unset tombstones, add/update_or_add, iter_exported), "
+         "ShellVariable (assign/append matrix, element ops, transforms), apply_assignment with the command-scope rule, declare/export. Theorems over "
+         "op sequences of any length: readonly_frozen_partial (value, scope and readonly flag survive every writer; guard excludes element ops, whose "
+         "missing check is a proved cex and finding), local_restores_shadowed (any writers aimed at a local, then return = caller's environment), "
+         "callee_sees_callers_locals (dynamic scoping), temp_assignment_undone_partial (+cex for nested prefixes), exported_env_exact_partial (+cex: a "
+         "shadowed exported binding leaks). Tie: op sequences applied to the real ShellEnvironment in-process with the whole stack dumped after every "
+         "op vs the model (exhaustive + random); random programs run in-process with a dump builtin; guarded programs brush vs bash with declare -p and env probes.",
+         "Trusted: Lean kernel + standard axioms; bash as oracle on the guarded sub-grammar only (what a failed write aborts differs between the "
+         "shells and is outside C09). exported_env_exact is proved for single-scope environments only (partial); mapfile is mapped to update_or_add.",
+         "DESIGN.md §6 C09"),
  "C12": ("Lean 4 proofs over a clone table regenerated from `struct Shell`/`impl Clone` + isolation theorems on a mutator model; serde-snapshot correspondence",
          "Proof: a translator parses `pub struct Shell` and `impl Clone for Shell` (and the component types) into Gen/ShellFields.lean on every run; "
          "by decide over that table: every field is classified, every state field is handed to the clone by value, no state field's type (nor its "
